@@ -3,16 +3,14 @@
 import json, os, subprocess
 ROOT = os.path.dirname(os.path.dirname(os.path.abspath(__file__)))
 
-CHECKS = {
- 'C17': dict(
-    category='exploration', design_ref='DESIGN.md §4 C17',
-    technique='metamorphic runtime monitor: sha-256 of the code file across repeated / re-optioned / re-located executions of the sanitised binary',
-    text='Held on the executions of this run: every golden-corpus program and generated programs were assembled under K sampled configurations '
-         '(report-option subsets, locale, cwd, output path, option carrier), each twice; code files must be byte-identical to the plain run and '
-         'listing/MAP/share outputs reproducible after masking the time stamp. Sampling, not exhaustive over option subsets.',
-    note='Trusts the plain run of the same binary as reference (a defect that changes code identically under all configurations is invisible here; '
-         'C16 compares against recorded .ori images). Time-stamp masking by regular expression.'),
-}
+import sys, importlib, glob
+sys.path.insert(0, ROOT)
+CHECKS = {}
+for f in sorted(glob.glob(os.path.join(ROOT, 'vf', 'checks', 'c[0-9][0-9].py'))):
+    m = importlib.import_module('vf.checks.' + os.path.basename(f)[:-3])
+    if getattr(m, 'MANIFEST', None) and getattr(m, 'REGISTERED', True):
+        CHECKS[m.ID] = m.MANIFEST
+
 NOT_YET = {}
 
 def main():
